@@ -58,6 +58,9 @@ type ModelDriver struct {
 	// Refuse, when set, names rules whose creation the data plane turns down (as gtp5g does for content it cannot take):
 	// the create call fails before anything is stored
 	Refuse func(kind string, seid uint64, id uint32) bool
+	// FailRemove, when set, names rules whose removal the data plane turns down (a transient error): the remove call fails
+	// and the rule stays
+	FailRemove func(kind string, seid uint64, id uint32) bool
 	// Hook, when set, runs at the start of every call on the caller's (the event loop's) goroutine; it may block to keep the loop busy.
 	Hook func(op, kind string, seid uint64, id uint32)
 }
@@ -187,6 +190,9 @@ func (d *ModelDriver) do(op, kind string, seid uint64, id uint32, body *ie.IE) e
 		}
 	}
 	if op == "create" && mode == "" && d.Refuse != nil && d.Refuse(kind, seid, id) {
+		mode = "refused"
+	}
+	if op == "remove" && exists && d.FailRemove != nil && d.FailRemove(kind, seid, id) {
 		mode = "refused"
 	}
 	switch mode {
